@@ -1,10 +1,10 @@
-//! suite `overflow` (C05, C16; thorough tier only — each case serializes 2^31 elements, ≈ 15–40 s):
+//! suite `overflow` (C05, C16; the 2^31-element cases run in the thorough tier only — ≈ 15–40 s each, `union_rows` ≈ 6 min / 10 GiB —, the small cases in both tiers):
 //! element counts at and just beyond the 32 bit offset type, with a counting `Serialize` impl so that no
 //! memory is needed (`List<Null>` column: the child only counts).
 //! Both tiers (milliseconds): kind `deep_term` — a `data_type` text `A(A(…I8…))` nested `n` levels deep handed to
 //! `SerdeArrowSchema::from_value` (fix d2b4b5b: before it the recursive descent of `Term::from_str` exhausted the
 //! stack from some 50 000 levels on — an abort of the process, which `./check` attributes to the case).
-//! Kind `union_rows` (repo fix fe68100): `n` rows of ONE unit variant into a dense `Union<Null, Null>` column: row `i`
+//! Kind `union_rows` (repo fix 217d612): `n` rows of ONE unit variant into a dense `Union<Null, Null>` column: row `i`
 //! gets the child offset `i`, so exactly the rows `0 ..= i32::MAX - 1` are accepted (2^31 - 1 of them) and the next
 //! one must be an ERROR annotated by the union builder (before the fix `current_offset[variant] += 1` overflowed: a
 //! panic with overflow checks, a negative offset without).  Small `n` in both tiers; `n = 2^31` in the thorough tier
@@ -107,7 +107,7 @@ fn exec_union_rows(input: &Value) -> Value {
     case
 }
 
-/// kind `len_hint` (repo fix 4c15f66): a `Serialize` impl that ANNOUNCES `n` elements (sequence, map, tuple struct, tuple /
+/// kind `len_hint` (repo fix 9aa1a7f): a `Serialize` impl that ANNOUNCES `n` elements (sequence, map, tuple struct, tuple /
 /// struct variant) and then sends none, handed to `SerdeArrowSchema::from_value`.  The hint is not data: the outcome must be
 /// the one of the honest announcement (0) — before the fix `Vec::with_capacity(n)` in utils/value.rs panicked with
 /// "capacity overflow" for n = usize::MAX and aborted on allocation failure for n = 2^40.
